@@ -182,6 +182,10 @@ def handle : List String → String
       if n.isEmpty ∨ n.contains 0 then "bad-op" else
       if kind = "abs" then "refused"
       else if kind = "file" ∨ kind = "dir" then (if refused (comps (chars n)) then "refused" else "restored")
+      -- the name belongs to a file node inside the plain directory `sub`: the streamed path is `sub/<name>`
+      else if kind = "nested" then
+        (if (chars n).head? = some '/' then "bad-op"
+         else if refused (comps ("sub/".toList ++ chars n)) then "refused" else "restored")
       else "bad-op"
     | none => "bad-op"
   | ["tree", seed] => if seed.toNat?.isSome then "ok" else "bad-op"
